@@ -658,3 +658,130 @@ func refCall(f string, a []Val) (Val, ood) {
 	}
 	return Val{}, ood("no reference semantics for " + f + " with these operands")
 }
+
+// magnitudeOK keeps the enumeration inside the operand range where evaluation is cheap: towers of
+// powers, REPT with a huge count and EXP of a large number make the engine compute astronomically
+// large decimals (that is property C04's subject, not this one's). The estimate is a total float
+// evaluation of the numeric part of the tree; a power or repeat whose operands it cannot estimate
+// is rejected too.
+func magnitudeOK(e *E) bool {
+	ok := true
+	var f func(e *E) float64
+	f = func(e *E) float64 {
+		nan := math.NaN()
+		switch e.K {
+		case "num":
+			d, err := decimal.NewFromString(e.V)
+			if err != nil {
+				return nan
+			}
+			return d.InexactFloat64()
+		case "ref":
+			if v, found := refContext[strings.ToLower(e.V)]; found && v.T == 'N' {
+				return v.F
+			}
+			return nan
+		case "str", "bool":
+			return nan
+		case "par":
+			return f(e.A[0])
+		case "neg":
+			return -f(e.A[0])
+		case "bin":
+			a, b := f(e.A[0]), f(e.A[1])
+			if (e.V == "+" || e.V == "-") && math.IsNaN(a) && !(math.Abs(b) <= 1e6) && !math.IsNaN(b) {
+				ok = false // date +- huge number of days
+			}
+			switch e.V {
+			case "+":
+				return a + b
+			case "-":
+				return a - b
+			case "*":
+				return a * b
+			case "/":
+				return a / b
+			case "^":
+				return pow(a, b, &ok)
+			}
+			return nan
+		case "call":
+			args := make([]float64, len(e.A))
+			for i, a := range e.A {
+				args[i] = f(a)
+			}
+			switch strings.ToUpper(e.V) {
+			case "ABS":
+				return math.Abs(args[0])
+			case "MAX":
+				return math.Max(args[0], args[1])
+			case "MIN":
+				return math.Min(args[0], args[1])
+			case "MOD":
+				return math.Mod(args[0], args[1])
+			case "SUM":
+				s := 0.0
+				for _, x := range args {
+					s += x
+				}
+				return s
+			case "AVERAGE":
+				return (args[0] + args[1]) / 2
+			case "POWER":
+				return pow(args[0], args[1], &ok)
+			case "EXP":
+				if !(math.Abs(args[0]) <= 40) {
+					ok = false
+				}
+				return math.Exp(args[0])
+			case "INT", "TRUNC", "ROUND", "ROUNDUP", "ROUNDDOWN":
+				if len(args) == 2 && !(math.Abs(args[1]) <= 16) {
+					ok = false
+				}
+				return math.Round(args[0])
+			case "EDATE":
+				if !(math.Abs(args[1]) <= 1e5) {
+					ok = false
+				}
+				return nan
+			case "LEN":
+				return 64
+			case "WORD_COUNT":
+				return 8
+			case "CODE", "UNICODE":
+				return 1000
+			case "IF":
+				return math.Max(math.Abs(args[1]), math.Abs(args[2]))
+			case "YEAR":
+				return 2100
+			case "MONTH", "DAY", "WEEKDAY", "HOUR", "MINUTE", "SECOND":
+				return 60
+			case "DAYS":
+				return 100000
+			case "REPT":
+				if !(math.Abs(args[1]) <= 64) {
+					ok = false
+				}
+			case "CHAR", "UNICHAR":
+				if !(math.Abs(args[0]) <= 1e6) {
+					ok = false
+				}
+			}
+			return nan
+		}
+		return nan
+	}
+	v := f(e)
+	if math.Abs(v) > 1e40 {
+		ok = false
+	}
+	return ok
+}
+
+func pow(a, b float64, ok *bool) float64 {
+	r := math.Pow(a, b)
+	if !(math.Abs(b) <= 64) || !(math.Abs(a) <= 1e9) || math.Abs(r) > 1e40 || (r != 0 && math.Abs(r) < 1e-30) {
+		*ok = false
+	}
+	return r
+}
